@@ -121,6 +121,32 @@ func (e *Exec) valueJSON(v Value, memo map[*Term]any) any {
 
 var constructorOps = map[string]bool{"b.cat": true, "b.ofstr": true, "b.empty": true, "str.cat": true, "str.u64": true, "str.int": true, "str.hex": true, "str.ofb": true, "modaddr": true, "modaddr0": true}
 
+// entailed: does the path condition (plus the negated assertion) force eq?
+func (e *Exec) entailed(negated *Term, eq *Term) bool {
+	q := Not(eq)
+	if negated != nil {
+		q = And(negated, q)
+	}
+	return e.sol.Check(q) == "unsat"
+}
+
+func isHashOp(op string) bool {
+	op = strings.TrimPrefix(op, "I")
+	if !strings.HasPrefix(op, "H") || len(op) < 2 {
+		return false
+	}
+	rest := op[1:]
+	if rest == "b" {
+		return true
+	}
+	for _, c := range rest {
+		if c < '0' || c > '9' {
+			return false
+		}
+	}
+	return true
+}
+
 func isConstructor(t *Term) bool {
 	if t.Op == "strlit" || constructorOps[t.Op] || isBOf(t) {
 		return true
@@ -155,6 +181,7 @@ func (e *Exec) buildCex(label string, negated *Term) map[string]any {
 	declaredFun := map[string]bool{}
 	var ctors []*Term
 	var selects []*Term
+	var hashes []*Term
 	for _, u := range all {
 		if u.Op != "sym" && u.Op != "const" && u.Op != "strlit" {
 			declaredFun[u.Op] = true
@@ -164,6 +191,9 @@ func (e *Exec) buildCex(label string, negated *Term) map[string]any {
 		}
 		if u.Op == "select" && u.S.K != SUn {
 			selects = append(selects, u)
+		}
+		if u.S.K == SBV && isHashOp(u.Op) {
+			hashes = append(hashes, u)
 		}
 	}
 	// queries
@@ -214,6 +244,9 @@ func (e *Exec) buildCex(label string, negated *Term) map[string]any {
 	for _, s := range selects {
 		add(s)
 	}
+	for _, h := range hashes {
+		add(h)
+	}
 	r, vals := e.sol.CheckModel(negated, want)
 	if r != "sat" {
 		return nil
@@ -224,6 +257,16 @@ func (e *Exec) buildCex(label string, negated *Term) map[string]any {
 			continue
 		}
 		ent := map[string]any{"sort": s.S.SMT(), "v": vals[s.SMT()]}
+		if s.S.K == SBV {
+			// a symbol the model made equal to a hash image is exported as that hash application, so that
+			// the native side recomputes it with the real sha3
+			for _, h := range hashes {
+				if h.S == s.S && vals[h.SMT()] == vals[s.SMT()] && e.entailed(negated, Eq(s, h)) {
+					ent["expr"] = termJSON(h, memo)
+					break
+				}
+			}
+		}
 		syms[s.Str] = ent
 	}
 	for _, f := range facts {
@@ -239,6 +282,19 @@ func (e *Exec) buildCex(label string, negated *Term) map[string]any {
 	// the model made equal to a constructed value (a literal, a hash image, a derived address) that value
 	var cj []any
 	for _, c := range ctors {
+		// keep a constructed term only if the path forces some symbol to equal it (or it is a literal)
+		if c.Op != "strlit" {
+			forced := false
+			for _, s := range e.syms {
+				if s.S == c.S && vals[s.SMT()] == vals[c.SMT()] && e.entailed(negated, Eq(s, c)) {
+					forced = true
+					break
+				}
+			}
+			if !forced {
+				continue
+			}
+		}
 		cj = append(cj, map[string]any{"id": vals[c.SMT()], "sort": c.S.SMT(), "t": termJSON(c, memo)})
 	}
 	var sj []any
